@@ -270,6 +270,61 @@ pub fn wakeup<const ITEMS: usize>(timed: u8, second_push: bool) {
     std::mem::forget(n);
 }
 
+/// A run that is started because the PATTERN changed (here: re-parsed to the same, empty text, which
+/// requests a rescore) and not because items arrived. The tick that starts it cancels, restarts and
+/// then waits with its timed lock attempt. `timed`: base-3 outcomes of the contended timed attempts, the
+/// first one belongs to the very first tick (a fresh matcher counts as canceled), the second one to the
+/// tick after the edit (0 acquired, 1 timed out, 2 timed out and the run finishes before the flag is
+/// re-armed = the D11 window).
+pub fn wakeup_rescore<const ITEMS: usize>(timed: u8) {
+    install_hooks();
+    set_timed(timed as u32);
+    let mut n: Nucleo<u32> = Nucleo::new(Config::DEFAULT, notify_fn(), Some(1), 1);
+    let inj = n.injector();
+    unsafe { *std::ptr::addr_of_mut!(USE_MASK) = false };
+    let mut k = 0;
+    while k < ITEMS {
+        let _ = inj.push(100 + k as u32, fill);
+        k += 1;
+    }
+    let st = n.tick(10);
+    if st.running {
+        let _ = rayon::verif_run_pending();
+    }
+    let st = n.tick(10);
+    check!(!st.running || ITEMS == 0, "C19 a tick after the run finished and without new items reports 'not running'");
+    let _ = rayon::verif_run_pending();
+    // the user edits the query to the same, empty text: MultiPattern::reparse(0, "", .., false) sets the
+    // column status to Rescore and re-parses. Only the status assignment is executed here (through the
+    // cfg(nucleo_verif) accessor): the text parser is outside what CBMC gets through (C14), and re-parsing
+    // the empty text leaves the empty atom list as it is.
+    {
+        let (_, st) = crate::pattern::verif_access::col_mut(&mut n.pattern, 0);
+        *st = crate::pattern::Status::Rescore;
+    }
+    let c0 = notify_count();
+    let w0 = *parking_lot::VERIF_HOLDER_DONE.get();
+    let st = n.tick(10);
+    cover!(st.running, "INFO tick after a pattern edit reports running");
+    if st.running {
+        let _ = rayon::verif_run_pending();
+        let window = *parking_lot::VERIF_HOLDER_DONE.get() > w0;
+        let notified = notify_count() > c0;
+        cover!(window && !notified, "KNOWN-FINDING D11 the run finishes between the failed timed lock attempt and the tick re-arming the notification flag: tick reports 'running' and no notification ever follows");
+        if !window {
+            check!(notified, "C13 a tick that reports 'running' after a pattern edit is followed by a notification once the background run has finished");
+        }
+    }
+    let _ = rayon::verif_run_pending();
+    let st = n.tick(10);
+    let _ = rayon::verif_run_pending();
+    if !st.running {
+        check!(n.snapshot().item_count() == ITEMS as u32 && n.snapshot().matched_item_count() == ITEMS as u32, "C07 once quiescent, the snapshot holds every injected item (empty pattern matches everything)");
+    }
+    std::mem::forget(inj);
+    std::mem::forget(n);
+}
+
 // ---------------------------------------------------------------------------------------------
 // C06 with writers in flight: a batch writer whose iterator is slow. `extend` reserves all its
 // indices up front and publishes item by item; whatever the harness does inside `next()` happens
